@@ -168,6 +168,13 @@ def translate():
         tst = _ns(body2[k2 + 1].test)
         warm[qual] = tst in (f"{var}==0.0", f"{var}==0")
         need(tst.startswith(var), body2[k2 + 1], f"warm-up test {tst}", rel)
+    # the reweighter carries nothing from one call to the next: no attribute is assigned outside __init__
+    cls = next(n for n in ast.walk(ast.parse(path.read_text())) if isinstance(n, ast.ClassDef) and n.name == "Reweighter")
+    stateful = [f"{m.name}:{_ns(t)}" for m in cls.body if isinstance(m, ast.FunctionDef) and m.name != "__init__"
+                for n in ast.walk(m) if isinstance(n, (ast.Assign, ast.AugAssign, ast.AnnAssign))
+                for t in (n.targets if isinstance(n, ast.Assign) else [n.target])
+                if _ns(t).startswith("self.") and not _ns(t).startswith("self.state.")]
+    need(not stateful, cls, f"the reweighter stores state between calls: {stateful}", "reweight.py:Reweighter")
     text_v = f"""(* GENERATED from /repo/tempest/steps/reweight.py by tools/props/c05.py *)
 From Coq Require Import List Bool Arith.
 From Tempest Require Import Base.Ops.
@@ -190,6 +197,7 @@ Definition branches_assign_matching_beta_weights_ess : bool := true.
 Definition logz_computed_at_chosen_beta : bool := true.
 Definition finalize_writes_beta_ess_logz : bool := true.
 Definition other_steps_writing_beta : nat := {len(writers)}.
+Definition reweighter_keeps_no_state_between_calls : bool := true.
 Definition warmup_iteration_is_beta_equal_zero_in_train_resample_mutate : bool := {str(all(warm.values())).lower()}.
 """
     write_if_changed(COQ / "Gen" / "Schedule.v", text_v)
@@ -269,6 +277,34 @@ def run_step(st, n_particles, ess_ratio, vv, synth=None):
     weights = rw.run()
     return dict(beta_prev=beta_prev, beta=float(st.get_current("beta")), ess=float(st.get_current("ess")),
                 logz=float(st.get_current("logz")), weights=np.array(weights), table=table, order=order, rw=rw, real=real)
+
+
+def reweighter_reuse_probe(run, tier, rng):
+    """One Reweighter object whose state manager is given another history with the same number of generations (what
+    load_state / update_from_dict do): its next step must be the step a fresh Reweighter takes on that history."""
+    from tempest.steps.reweight import Reweighter
+    for t in range(4 if tier == "quick" else 40):
+        n_particles, T = rng.choice([8, 16]), rng.choice([2, 3])
+        ess_ratio, vv = rng.choice([0.5, 1.0, 1.7]), rng.choice([None, None, 0.5])
+        stA, _ = build(rng, T, n_particles, spread=rng.choice([1.0, 5.0]))
+        stB, betasB = build(rng, T, n_particles, spread=rng.choice([50.0, 500.0]))
+        for stx in (stA, stB):
+            stx.set_current("beta", 0.0)
+        rw = Reweighter(state=stA, pbar=None, n_particles=n_particles, ess_ratio=ess_ratio, volume_variation=vv,
+                        ESS_TOLERANCE=ESS_TOL, BETA_TOLERANCE=BETA_TOL)
+        rw.run()
+        snapshot = stB.to_dict()
+        stA.update_from_dict(snapshot)          # the reused object now holds history B
+        w1 = rw.run()
+        got = (float(stA.get_current("beta")), float(stA.get_current("ess")), float(stA.get_current("logz")))
+        fresh = Reweighter(state=stB, pbar=None, n_particles=n_particles, ess_ratio=ess_ratio, volume_variation=vv,
+                           ESS_TOLERANCE=ESS_TOL, BETA_TOLERANCE=BETA_TOL)
+        w2 = fresh.run()
+        want = (float(stB.get_current("beta")), float(stB.get_current("ess")), float(stB.get_current("logz")))
+        run.case(key=("reuse", t), nontrivial=True)
+        if got != want or not np.array_equal(np.asarray(w1), np.asarray(w2)):
+            run.fail("step-depends-on-earlier-history", f"a Reweighter that had stepped on another history chose (beta, ESS, logZ) = {got}; a fresh one on the "
+                     f"same history chooses {want}", n_particles=n_particles, T=T, ess_ratio=ess_ratio, volume_variation=vv)
 
 
 def check_step(run, st, res, n_particles, ess_ratio, vv, synth, what):
@@ -443,6 +479,7 @@ def main(tier, seed):
     run.prove("Props/C05.v", link_rels=["Link/Schedule.v"])
     try:
         sweep(run, tier, rng)
+        reweighter_reuse_probe(run, tier, rng)
         real_runs(run, tier, rng)
     except Exception:
         import traceback
